@@ -93,8 +93,10 @@ static_assert(false, "LZCNT feature flag was not passed to compiler");
 static_assert(false, "POPCNT feature flag was not passed to compiler");
 #endif
 
-#if defined(AVEL_PREFETCH) && !defined(__PREFETCH__)
-static_assert(false, "POPCNT feature flag was not passed to compiler");
+// There is no compiler macro dedicated to the prefetch instructions. They
+// come with SSE (always present on x86-64), 3DNow!, or PRFCHW
+#if defined(AVEL_PREFETCH) && !(defined(__SSE__) || defined(__PRFCHW__) || defined(__3dNOW__))
+static_assert(false, "PREFETCH feature flag was not passed to compiler");
 #endif
 
 
